@@ -424,9 +424,50 @@ func (g *Global) fieldLocs0(ref, sk string, st *types.Struct, i int) []leafLoc {
 	return []leafLoc{{sk + "." + f.Name(), ref, kindOf(ft), ft}}
 }
 
+// rootFacts instantiates rootid(fld(r,i)) = rootid(r) / rootid(elm(r,i)) = rootid(r)
+// for the interior references occurring in ref.
+func (c *fnCtx) rootFacts(st *State, ref string) {
+	for depth := 0; depth < 6; depth++ {
+		if !(strings.HasPrefix(ref, "(fld ") || strings.HasPrefix(ref, "(elm ")) {
+			return
+		}
+		key := "$root:" + ref
+		if c.flags[key] != "" {
+			return
+		}
+		c.flags[key] = "1"
+		// first argument: balanced term after the operator
+		rest := ref[5:]
+		end := 0
+		if rest[0] == '(' {
+			d := 0
+			for i, ch := range rest {
+				if ch == '(' {
+					d++
+				} else if ch == ')' {
+					d--
+					if d == 0 {
+						end = i + 1
+						break
+					}
+				}
+			}
+		} else {
+			end = strings.IndexAny(rest, " )")
+		}
+		if end <= 0 {
+			return
+		}
+		base := rest[:end]
+		c.assertGlobal(app("=", app("rootid", ref), app("rootid", base)))
+		ref = base
+	}
+}
+
 func (c *fnCtx) loadLocs(st *State, locs []leafLoc, t types.Type) SymVal {
 	var terms []string
 	for _, l := range locs {
+		c.rootFacts(st, l.ref)
 		terms = append(terms, app("select", c.comp(st, l.comp, c.sortOf(l.k, l.t)), l.ref))
 	}
 	if len(terms) == 0 {
@@ -469,6 +510,7 @@ func (c *fnCtx) storeLocs(st *State, locs []leafLoc, v SymVal) {
 		return
 	}
 	for i, l := range locs {
+		c.rootFacts(st, l.ref)
 		old := c.comp(st, l.comp, c.sortOf(l.k, l.t))
 		st.heap[l.comp] = c.define("H", fmt.Sprintf("(Array Ref %s)", c.sortOf(l.k, l.t)), app("store", old, l.ref, fl[i].S))
 		if l.k == KRef || l.k == KIface {
